@@ -463,6 +463,7 @@ pub fn grid(thorough: bool) -> Vec<i64> {
 /// * every singleton of the grid,
 /// * every `[s,e;t]`, s<e on the grid, t a stride of `STRIDES` dividing e-s,
 /// * every interval of length k*t (k = 1..=4) starting or ending at a grid point,
+/// * two-member intervals `[s,e;e-s]` with e-s > 127 (quick: those touching -128 or 127),
 /// * Top.
 /// Quick: reduced grid; anchored intervals only with k in {1,3} and only starting at the grid point.
 pub fn i1_bare(thorough: bool) -> Vec<(i64, i64, u64)> {
@@ -476,6 +477,10 @@ pub fn i1_bare(thorough: bool) -> Vec<(i64, i64, u64)> {
                     if (e - s) as u64 % t == 0 {
                         set.insert((s, e, t));
                     }
+                }
+                // two members further apart than the largest positive signed number (stride >= 2^(bits-1))
+                if e - s > 127 && (thorough || s == -128 || e == 127) {
+                    set.insert((s, e, (e - s) as u64));
                 }
             }
         }
@@ -605,7 +610,7 @@ pub fn wide_strides(w: u32, thorough: bool) -> Vec<u64> {
 }
 /// Wide alphabet without hints: singletons of all points, `[s, e'; t]` for all point pairs s<e and
 /// strides t, where e' is e rounded down onto the stride (skipped if that collapses to s), plus
-/// `[s, s+k*t; t]` for k in 1..=2, plus Top.
+/// `[s, s+k*t; t]` for k in 1..=2, two-member intervals `[s,e;e-s]` with e-s >= 2^(bits-1), plus Top.
 pub fn wide_bare(w: u32, thorough: bool) -> Vec<(i64, i64, u64)> {
     let pts = wide_points(w, thorough);
     let mut set: BTreeSet<(i64, i64, u64)> = BTreeSet::new();
@@ -626,6 +631,13 @@ pub fn wide_bare(w: u32, thorough: bool) -> Vec<(i64, i64, u64)> {
                 if e <= smax(w) as i128 {
                     set.insert((s, e as i64, t));
                 }
+            }
+        }
+        // two members further apart than the largest positive signed number (stride >= 2^(bits-1))
+        for &e in &pts {
+            let d = e as i128 - s as i128;
+            if d > smax(w) as i128 && (thorough || s == smin(w) || e == smax(w)) {
+                set.insert((s, e, d as u64));
             }
         }
     }
